@@ -654,6 +654,39 @@ def r07h(ctx):
         raise AnalysisError("R07h: no width-measuring loop feeding append_column found in Table")
 
 
+def r07j(ctx):
+    """Outside the Table class, rows reach a table through its row API.
+
+    "No row is wider than the number of declared columns": append_row, insert_row, set_row and extend_rows end with the width
+    synchronisation (`_update_width` / R07h), the element-level primitives (`extend`, `append`, `insert`, `_append`) do not — they attach
+    children and know nothing of columns or maps.  Code outside the class that builds a table (the CSV importer, the document helpers) and
+    attaches rows with a primitive "in one go" gets the columns of whatever went through the row API before, and rows wider than that.
+    Rule: in every function outside class Table, a local bound to `Table(…)` is never the receiver of extend / insert / _append, nor of
+    `append` with an argument built as `Row(…)` or taken from a list of rows, and `_compute_table_cache` is not called on it from outside.
+    """
+    repo = ctx.repo
+    ctx.rule("R07j", "outside class Table, rows are attached to a table through append_row / extend_rows, not through element primitives", floor=1)
+    tcls = repo.cls("Table")
+    n = 0
+    for f in repo.all_funcs():
+        if f.cls is not None and (f.cls is tcls or tcls in f.cls.mro):
+            continue
+        tables = {t.id for a in walk_no_nested(f.node) if isinstance(a, (ast.Assign, ast.AnnAssign)) and isinstance(getattr(a, "value", None), ast.Call)
+                  and call_name(a.value) == "Table" for t in (a.targets if isinstance(a, ast.Assign) else [a.target]) if isinstance(t, ast.Name)}
+        if not tables:
+            continue
+        n += 1
+        bad = [c for c in walk_no_nested(f.node) if isinstance(c, ast.Call) and isinstance(c.func, ast.Attribute) and isinstance(c.func.value, ast.Name) and c.func.value.id in tables
+               and c.func.attr in ("extend", "insert", "_append", "_compute_table_cache", "_Element__append")]
+        ctx.instance("R07j", f"{f.file}:{f.ident}", f"table local(s) {sorted(tables)}: rows attached through the row API", ok=not bad, nontrivial=True, line=f.node.lineno)
+        for c in bad[:1]:
+            ctx.report("R07j", f, c, norm(c, 50),
+                       f"{f.ident} attaches content to the table it builds with the element primitive `{c.func.attr}`: no width synchronisation runs for those rows, so the table declares the "
+                       f"columns of the rows that went through append_row only — a later, longer row is wider than the declared columns and `width` reports too little")
+    if n < 1:
+        raise AnalysisError("R07j: no function outside class Table builds a table")
+
+
 def run(ctx):
     tom = run_tom(ctx.repo)
     r07a(ctx)
@@ -665,6 +698,7 @@ def run(ctx):
     r07g(ctx)
     r07h(ctx)
     r07i(ctx)
+    r07j(ctx)
     # optimize_width trims the column declarations to the largest minimized_width: a row measured too short ends up wider than the columns (shared with C17)
     from .c17 import r17i
     r17i(ctx)
@@ -686,6 +720,8 @@ _T = "src/odfdo/table.py"
 _R = "src/odfdo/row.py"
 _C = "src/odfdo/cell.py"
 SEEDS = [
+    Seed("the CSV importer attaches the rows after the first with extend()", "fault", _T,
+         "        table.append_row(row, clone=False)\n", "        if table.height == 0:\n            table.append_row(row, clone=False)\n        else:\n            table.extend([row])\n            table._compute_table_cache()\n", "R07j"),
     Seed("cell-address automaton stops looping on digits", "fault", _T, '            elif step in ("A", "A1") and x in string.digits:', '            elif step == "A" and x in string.digits:', "R07i"),
     Seed("cell-address automaton lets letters follow digits", "fault", _T, '            if x in string.ascii_letters and step in ("", "A"):', '            if x in string.ascii_letters:', "R07i"),
     Seed("cell-address automaton with the tests swapped inside the conjunction", "neutral", _T, '            elif step in ("A", "A1") and x in string.digits:', '            elif x in string.digits and step in ("A1", "A"):'),
